@@ -267,6 +267,7 @@ def tlc_trace(module, trace, outpath, timeout=1800, heap="8g", focus=(), cont=Fa
     res = {"accepted": False, "at": None, "ev": None, "tag": None, "events": None,
            "wall_s": round(time.time() - t0, 1), "out": outpath,
            "nonfocus": sorted(set(re.findall(r'<<"NONFOCUS", \d+, (\{[^}]*\}, "[^"]*")>>', re.sub(r"\s+", " ", out).replace("<< ", "<<").replace(" >>", ">>"))))}
+    res["drift"] = sorted(set(re.findall(r'<<"DRIFT", \d+, "([^"]*)">>', re.sub(r"\s+", " ", out).replace("<< ", "<<").replace(" >>", ">>"))))
     if p.returncode == 124:
         raise ToolError(f"TLC timed out validating {trace}")
     res["viol"] = [(int(a), b) for a, b in re.findall(r'<<"VIOL", (\d+), "([^"]*)">>', re.sub(r"\s+", " ", out).replace("<< ", "<<").replace(" >>", ">>"))]
